@@ -1,3 +1,4 @@
+import AnsiModel.Generated.Methods.RemoveCore
 import AnsiProofs.Props.C06d
 import AnsiProofs.Props.C09c
 import AnsiProofs.Props.C15c
